@@ -9,7 +9,7 @@ CLIENT.  Called from checks/c05.py as `run(ctx, quick)`.
    _choose_signature_alg / server-sig-algs, password used once, the
    keyboard-interactive password fallback, PK_OK handling, the _Client*Auth
    classes) - over every configuration of the sections order / keys / rsa /
-   kbd / change / partial / odd: ValidAdmitted, SuccessIsServers, Bounded +
+   kbd / mix / change / partial / odd: ValidAdmitted, SuccessIsServers, Bounded +
    Terminates, EachCredentialOnce, KeyOrder, AgentFirst, SignedOnlyAfterPkOk,
    NoCredentialLeak, DisabledUnused.  Wrong variants of the rule (stop at the
    first failed key, password kept, agent keys appended, no RSA retry, no
@@ -42,7 +42,7 @@ SPEC = os.path.join(VERIF, 'specs', 'Auth')
 INVS = ['TypeOK', 'Bounded', 'ValidAdmitted', 'SuccessIsServers',
         'EachCredentialOnce', 'KeyOrder', 'AgentFirst', 'SignedOnlyAfterPkOk',
         'NoCredentialLeak', 'DisabledUnused']
-ALL = '{"order", "keys", "rsa", "kbd", "change", "partial", "odd"}'
+ALL = '{"order", "keys", "rsa", "kbd", "mix", "change", "partial", "odd"}'
 WORKERS = 4
 
 # public_key_auth_requested tests "no client keys left" before it looks at
